@@ -209,6 +209,7 @@ def gen_dtc(inv, base, dids, rnd, nrec_choices):
     ds = base[cl.SNAP_DID]
     out = []
     fixed_dids = [(d, sh) for d, sh in dids if sh >= 0 and 0 < d < (1 << (8 * ds))]
+    readall_dids = [(d, sh) for d, sh in dids if sh < 0 and 0 < d < (1 << (8 * ds))]
 
     def ids(n):
         s = set()
@@ -249,38 +250,50 @@ def gen_dtc(inv, base, dids, rnd, nrec_choices):
         elif sub in (0x04, 0x18):
             if not fixed_dids:
                 continue
-            st = rnd.randrange(256)
-            body, snaps = b'', []
-            rec = snap if snap not in (None, 0xFF) else rnd.randrange(1, 255)
-            for _ in range(n):
-                nd = rnd.randrange(1, 4)
-                body += bytes([rec, nd])
-                for _ in range(nd):
-                    d, sh = rnd.choice(fixed_dids)
-                    raw = rb(rnd, sh)
-                    body += u(ds, d) + raw
-                    snaps.append((rec, d, raw))
-            hdr = bytes([0x59, sub]) + (bytes([memsel]) if sub == 0x18 else b'')
-            out.append((hdr + u(3, dtc) + bytes([st]) + body, dtcdata(sub, memsel if sub == 0x18 else -1, count=1, dtcs=[dtc_render(dtc, st, snaps=snaps)]), None, 'snapshots by dtc x%d' % n))
+            for use_ra in ((False, True) if (readall_dids and n > 0) else (False,)):
+                st = rnd.randrange(256)
+                body, snaps = b'', []
+                rec = snap if snap not in (None, 0xFF) else rnd.randrange(1, 255)
+                for k in range(n):
+                    nd = rnd.randrange(1, 4)
+                    body += bytes([rec, nd])
+                    for j in range(nd):
+                        if use_ra and k == n - 1 and j == nd - 1:
+                            # the last DID of the response has a codec that takes whatever is left
+                            d, sh = rnd.choice(readall_dids)
+                            raw = nz(rnd, rnd.choice([1, 2, 5]))
+                        else:
+                            d, sh = rnd.choice(fixed_dids)
+                            raw = rb(rnd, sh)
+                        body += u(ds, d) + raw
+                        snaps.append((rec, d, raw))
+                hdr = bytes([0x59, sub]) + (bytes([memsel]) if sub == 0x18 else b'')
+                out.append((hdr + u(3, dtc) + bytes([st]) + body, dtcdata(sub, memsel if sub == 0x18 else -1, count=1, dtcs=[dtc_render(dtc, st, snaps=snaps)]),
+                            None, 'snapshots by dtc x%d%s' % (n, ' (last DID reads all)' if use_ra else '')))
         elif sub == 0x05:
             if not fixed_dids or n > 1:
                 continue
-            body, dl = b'', []
-            rec = snap if snap not in (None, 0xFF) else rnd.randrange(1, 255)
-            for i in ids(n):
-                st = rnd.randrange(256)
-                nd = rnd.randrange(1, 4)
-                body += bytes([rec]) + u(3, i) + bytes([st, nd])
-                snaps = []
-                for _ in range(nd):
-                    d, sh = rnd.choice(fixed_dids)
-                    raw = rb(rnd, sh)
-                    body += u(ds, d) + raw
-                    snaps.append((rec, d, raw))
-                dl.append(dtc_render(i, st, snaps=snaps))
-            if n == 0:
-                body = bytes([rec])
-            out.append((bytes([0x59, sub]) + body, dtcdata(sub, dtcs=dl), None, 'snapshots by record x%d' % n))
+            for use_ra in ((False, True) if (readall_dids and n > 0) else (False,)):
+                body, dl = b'', []
+                rec = snap if snap not in (None, 0xFF) else rnd.randrange(1, 255)
+                for i in ids(n):
+                    st = rnd.randrange(256)
+                    nd = rnd.randrange(1, 4)
+                    body += bytes([rec]) + u(3, i) + bytes([st, nd])
+                    snaps = []
+                    for j in range(nd):
+                        if use_ra and j == nd - 1:
+                            d, sh = rnd.choice(readall_dids)
+                            raw = nz(rnd, rnd.choice([1, 2, 5]))
+                        else:
+                            d, sh = rnd.choice(fixed_dids)
+                            raw = rb(rnd, sh)
+                        body += u(ds, d) + raw
+                        snaps.append((rec, d, raw))
+                    dl.append(dtc_render(i, st, snaps=snaps))
+                if n == 0:
+                    body = bytes([rec])
+                out.append((bytes([0x59, sub]) + body, dtcdata(sub, dtcs=dl), None, 'snapshots by record x%d%s' % (n, ' (last DID reads all)' if use_ra else '')))
         elif sub in (0x06, 0x10, 0x19):
             if size is None:
                 continue
